@@ -16,11 +16,19 @@
 (*   DevFetchDefaultZero   coordinator: OffsetFetch forwards the store's 0 for a never-committed partition *)
 (*   DevCommitUnchecked    coordinator: OffsetCommit writes before checking member/generation              *)
 (*   DevToolWrites         mcp: fetch_offsets initialises missing offsets (a tool that writes)             *)
+(*   DevToolReaps          mcp: list_groups deletes stored groups that are dead and memberless             *)
+(*   DevEscapeFastPath     mem: the consumer key escapes a name only when it contains ':', so the text     *)
+(*                         "%3A" in one name collides with ':' in another ("g%3At" vs "g:t")               *)
+(*   DevEtcdDeletePrefix   etcd: DeleteTopic(t) deletes the produce offsets under the key prefix of t      *)
+(*                         without the closing '/', i.e. also those of every topic whose name starts with t *)
+(* Topic names are validated by CreateTopic (metadata.ValidTopicName: [a-zA-Z0-9._-]); names containing    *)
+(* ':' '/' '%' still reach the consumer-offset and group operations, which do not validate.                 *)
 EXTENDS Integers, Sequences, FiniteSets, TLC, Json
-CONSTANTS Topics, Groups, ColonNames, SlashNames, MaxParts, Offs, Metas, Variants, TimeoutVariants,
+CONSTANTS Topics, Groups, ColonNames, SlashNames, PercentNames, DeadVariants, MaxParts, Offs, Metas, Variants, TimeoutVariants,
           CfgVariants, ToolNames, ToolShapes, InitTopics, MaxOps,
           DevKeyAliasing, DevDeleteKeepsOffsets, DevCloneDropsTimeouts, DevEtcdListOmitsSlash,
-          DevEtcdPartsOrder, DevFetchDefaultZero, DevCommitUnchecked, DevToolWrites
+          DevEtcdPartsOrder, DevFetchDefaultZero, DevCommitUnchecked, DevToolWrites,
+          DevToolReaps, DevEscapeFastPath, DevEtcdDeletePrefix
 VARIABLES st,         \* [impl -> store record]
           committed,  \* ghost: [impl -> [triple -> last SUCCESSFUL coordinator commit]]
           last,       \* the last operation with both observation columns
@@ -45,18 +53,26 @@ PartsOf(s, t) == IF TopicIdx(s, t) = 0 THEN 0 ELSE s.topics[TopicIdx(s, t)][2]
 Without(q, i) == [j \in 1..(Len(q) - 1) |-> IF j < i THEN q[j] ELSE q[j + 1]]
 
 (* ---------------- topics, partitions, produce offsets (shared code path: EtcdStore delegates) ------------- *)
+\* the name relations of the alphabet that the key layouts are sensitive to
+EscapePairs == {<<"g:t", "g%3At">>, <<"t:u", "t%3Au">>}      \* <<name with ':', the same name with ':' spelled "%3A">>
+PrefixPairs == {<<"o", "o-d">>}                               \* <<name, longer name that starts with it>>
+Canon(n) == IF \E pr \in EscapePairs : pr[2] = n THEN (CHOOSE pr \in EscapePairs : pr[2] = n)[1] ELSE n
+IllegalTopic(t) == t \in (ColonNames \cup SlashNames \cup PercentNames)
+
 DoCreateTopic(i, s, t, n, rf) ==
-  IF n <= 0 THEN Res(s, Obs("invalid", 0))
+  IF IllegalTopic(t) \/ n <= 0 THEN Res(s, Obs("invalid", 0))
   ELSE IF PartsOf(s, t) > 0 THEN Res(s, Obs("exists", 0))
   ELSE IF rf > 1 THEN Res(s, Obs("invalid", 0))              \* one broker in every harness
   ELSE Res([s EXCEPT !.topics = Append(@, <<t, n>>)], Obs("ok", n))
 
-KeyOf(i, g, t, p) == IF DevKeyAliasing /\ i = "mem" THEN <<g \o ":" \o t, "", p>> ELSE <<g, t, p>>
+KeyOf(i, g, t, p) == IF DevKeyAliasing /\ i = "mem" THEN <<g \o ":" \o t, "", p>>
+                     ELSE IF DevEscapeFastPath /\ i = "mem" THEN <<Canon(g), Canon(t), p>>
+                     ELSE <<g, t, p>>
 
 DoDeleteTopic(i, s, t) ==
   IF PartsOf(s, t) = 0 THEN Res(s, Obs("unknown", 0))
   ELSE Res([s EXCEPT !.topics = Without(@, TopicIdx(s, t)),
-                     !.next = Drop(@, {k \in DOMAIN @ : k[1] = t}),
+                     !.next = Drop(@, {k \in DOMAIN @ : k[1] = t \/ (DevEtcdDeletePrefix /\ i = "etcd" /\ <<t, k[1]>> \in PrefixPairs)}),
                      !.coff = IF DevDeleteKeepsOffsets /\ i = "mem" THEN @
                               ELSE Drop(@, {k \in DOMAIN @ : @[k].t = t})],
            Obs("ok", 0))
@@ -192,6 +208,8 @@ Tool(name, shape) ==
   /\ Len(hist) < MaxOps
   /\ LET g == CHOOSE x \in Groups : TRUE
          ns == [i \in Impls |->
+                  IF DevToolReaps /\ name = "list_groups"
+                  THEN [st[i] EXCEPT !.groups = Drop(@, {x \in DOMAIN @ : @[x][1] \in DeadVariants})] ELSE
                   IF DevToolWrites /\ name = "fetch_offsets" /\ shape = "known" /\ Len(st[i].topics) > 0
                      /\ ~Lookup(i, st[i], g, st[i].topics[1][1], 0).set
                   THEN DoCommit(i, st[i], g, st[i].topics[1][1], 0, 0, "").s ELSE st[i]]
@@ -217,6 +235,11 @@ NextStore ==
                        \/ \E v \in Variants : PutGroup(g, v)
                        \/ FetchGroup(g) \/ DeleteGroup(g)
   \/ Metadata \/ Refresh \/ ListOffsets \/ ListGroups \/ Final
+\* the topic / produce-offset half of NextStore (used by a deviation config that needs a deeper search)
+NextTopicOps ==
+  \E t \in Topics : \/ \E n \in 0..MaxParts, rf \in {1, 2} : CreateTopic(t, n, rf)
+                     \/ DeleteTopic(t)
+                     \/ \E p \in Parts : NextOffset(t, p) \/ \E o \in Offs : UpdateOffsets(t, p, o)
 \* C16: commits and fetches through the coordinator
 NextCoord == \E g \in Groups, t \in Topics, p \in Parts :
                \/ CoordFetch(g, t, p)
@@ -248,7 +271,8 @@ P40(i) == INSTANCE StoreProps WITH obsA <- 0, obsB <- 0,
 C40_Unchanged == last.kind = "tool" => \A i \in Impls : P40(i)!C40_Unchanged
 
 \* conformance-level facts
-SameState == DevKeyAliasing \/ DevDeleteKeepsOffsets \/ DevCloneDropsTimeouts \/ st["mem"] = st["etcd"]
+SameState == DevKeyAliasing \/ DevDeleteKeepsOffsets \/ DevCloneDropsTimeouts \/ DevEscapeFastPath \/ DevEtcdDeletePrefix
+             \/ st["mem"] = st["etcd"]
 
 View == <<st, committed, last, Len(hist)>>
 EmitSched == PrintT(<<"SCHED", ToJson(hist)>>)
